@@ -731,6 +731,7 @@ protected:
         iora::core::Logger::debug("HttpServer: Connection closed (session " +
                                   std::to_string(sid) + ")");
       }
+      _upgradePending.erase(sid);
     }
     onSessionClosed(sid);
   }
@@ -744,9 +745,43 @@ protected:
     // (it may access _sessionInfo or _upgradedSessions → deadlock).
     {
       bool isUpgraded = false;
+      bool pendingOverflow = false;
       {
         std::lock_guard<std::mutex> lock(_sessionMutex);
+        if (_upgradePending.count(sid) > 0)
+        {
+          // An Upgrade request of this session is being processed on a pool
+          // thread. Whatever follows it on the wire belongs to the protocol the
+          // connection is being switched to: it is neither scanned for further
+          // HTTP requests nor handed to onUpgradedData from this thread (that
+          // would overtake the bytes still waiting in the session buffer). It is
+          // queued behind them, in arrival order; the pool thread drains the
+          // buffer after the 101 response and only then lets reads through.
+          auto it = _sessionInfo.find(sid);
+          if (it == _sessionInfo.end())
+          {
+            return; // Session was closed
+          }
+          if (it->second.buffer.size() + len > SessionInfo::MAX_BUFFER_SIZE)
+          {
+            pendingOverflow = true;
+          }
+          else
+          {
+            it->second.buffer.append(reinterpret_cast<const char *>(data), len);
+            return;
+          }
+        }
         isUpgraded = _upgradedSessions.count(sid) > 0;
+      }
+      if (pendingOverflow)
+      {
+        iora::core::Logger::error("HttpServer: Buffer size limit exceeded for session " +
+                                  std::to_string(sid) + " - closing connection");
+        // The read is dropped, so the stream has a hole: forget the session and
+        // close (like the limit path below). _sessionMutex is not held here.
+        rejectSession(sid);
+        return;
       }
       if (isUpgraded)
       {
@@ -818,6 +853,7 @@ protected:
       bool isChunked = false;
       bool haveContentLength = false;
       bool haveTransferEncoding = false;
+      bool haveUpgrade = false;
 
       // Parse headers
       std::istringstream headerStream(headerSection);
@@ -913,6 +949,10 @@ protected:
             }
             isChunked = (finalCoding == "chunked");
           }
+          else if (key == "upgrade")
+          {
+            haveUpgrade = true;
+          }
         }
       }
 
@@ -985,15 +1025,28 @@ protected:
         if (it != _sessionInfo.end())
         {
           it->second.buffer = dataStr;
+          if (haveUpgrade)
+          {
+            // From here until processHttpRequest has decided the upgrade, the
+            // bytes behind this request (now in the session buffer) and every
+            // later read are held back in arrival order (see the head of this
+            // function). Set in the SAME critical section that stores the rest.
+            _upgradePending.insert(sid);
+          }
         }
       }
 
       // Process request in thread pool to avoid blocking transport
       // Use tryEnqueue for backpressure - reject requests if queue is full
       const std::uint64_t epoch = _transportEpoch.load();
-      if (!_threadPool.tryEnqueue([this, sid, requestData, epoch]()
-                                  { processHttpRequest(sid, requestData, epoch); }))
+      if (!_threadPool.tryEnqueue([this, sid, requestData, epoch, haveUpgrade]()
+                                  { processHttpRequest(sid, requestData, epoch, haveUpgrade); }))
       {
+        if (haveUpgrade)
+        {
+          std::lock_guard<std::mutex> lock(_sessionMutex);
+          _upgradePending.erase(sid);
+        }
         // Thread pool is overloaded, send 503 Service Unavailable
         iora::core::Logger::warning(
           "HttpServer: Rejecting request due to thread pool overload "
@@ -1013,6 +1066,14 @@ protected:
           "active threads: " + std::to_string(_threadPool.getActiveThreadCount()) + "/" +
           std::to_string(_threadPool.getTotalThreadCount()) + ")");
       }
+
+      if (haveUpgrade)
+      {
+        // What follows an Upgrade request is not ours to parse: if the upgrade
+        // is accepted it is the first input of the new protocol (a WebSocket
+        // frame may well contain CR LF CR LF). It stays in the session buffer.
+        break;
+      }
     }
   }
 
@@ -1028,8 +1089,30 @@ protected:
   /// new transport whose session ids start at 1 again, so a worker that outlives
   /// a stop()/start() cycle must not use its (stale) sid on the new transport:
   /// every guarded transport access below also requires sameTransport().
-  void processHttpRequest(SessionId sid, const std::string &requestData, std::uint64_t epoch)
+  /// \p holdsUpgrade: the request carries an Upgrade header, so
+  /// handleIncomingData holds back the reads that follow it (_upgradePending)
+  /// until this function has decided the upgrade.
+  void processHttpRequest(SessionId sid, const std::string &requestData, std::uint64_t epoch,
+                          bool holdsUpgrade = false)
   {
+    // Whatever way this function is left (declined upgrade, error response,
+    // shutdown, exception) the hold is released; the accepted-upgrade path
+    // releases it itself, atomically with finding the session buffer drained.
+    struct UpgradeHoldRelease
+    {
+      HttpServer *self;
+      SessionId sid;
+      bool armed;
+      ~UpgradeHoldRelease()
+      {
+        if (armed)
+        {
+          std::lock_guard<std::mutex> lock(self->_sessionMutex);
+          self->_upgradePending.erase(sid);
+        }
+      }
+    } upgradeHoldRelease{this, sid, holdsUpgrade};
+
     iora::core::Logger::debug("HttpServer::processHttpRequest() - "
                               "Processing request for session " +
                               std::to_string(sid));
@@ -1192,38 +1275,49 @@ protected:
               // Buffer-drain: feed any remaining bytes from session buffer
               // to the upgraded protocol handler (e.g., WebSocket frame parser).
               // The client may have sent WebSocket frames in the same TCP segment.
+              // Reads that arrive meanwhile are queued behind them by
+              // handleIncomingData (_upgradePending), so the drain repeats until
+              // the buffer is found EMPTY, and the hold is released in that same
+              // critical section: from then on reads go straight to
+              // onUpgradedData, after everything that was drained here.
+              for (;;)
               {
                 std::string remaining;
                 {
                   std::lock_guard<std::mutex> lock(_sessionMutex);
                   auto it = _sessionInfo.find(sid);
-                  if (it != _sessionInfo.end() && !it->second.buffer.empty())
+                  if (it != _sessionInfo.end() && !it->second.buffer.empty() &&
+                      _upgradedSessions.count(sid) > 0)
                   {
                     remaining = std::move(it->second.buffer);
                     it->second.buffer.clear();
                   }
+                  else
+                  {
+                    _upgradePending.erase(sid);
+                    break;
+                  }
                 }
-                if (!remaining.empty())
+                // The upgrade response is already on the wire: this request
+                // has had its one response. An exception from the upgraded
+                // protocol's handler must not reach the catch below, which
+                // would send a second (500) response for the same request
+                // into the upgraded stream. End the connection instead (the
+                // scope guard above releases the hold).
+                try
                 {
-                  // The upgrade response is already on the wire: this request
-                  // has had its one response. An exception from the upgraded
-                  // protocol's handler must not reach the catch below, which
-                  // would send a second (500) response for the same request
-                  // into the upgraded stream. End the connection instead.
-                  try
-                  {
-                    onUpgradedData(sid,
-                      reinterpret_cast<const std::uint8_t*>(remaining.data()),
-                      remaining.size());
-                  }
-                  catch (...)
-                  {
-                    iora::core::Logger::error(
-                      "HttpServer: upgraded-data handler threw while draining "
-                      "buffered bytes after an upgrade (session " +
-                      std::to_string(sid) + "); closing the connection");
-                    closeSession(sid);
-                  }
+                  onUpgradedData(sid,
+                    reinterpret_cast<const std::uint8_t*>(remaining.data()),
+                    remaining.size());
+                }
+                catch (...)
+                {
+                  iora::core::Logger::error(
+                    "HttpServer: upgraded-data handler threw while draining "
+                    "buffered bytes after an upgrade (session " +
+                    std::to_string(sid) + "); closing the connection");
+                  closeSession(sid);
+                  break;
                 }
               }
               return; // Skip normal route dispatch
@@ -2411,6 +2505,9 @@ private:
   // Sessions that have been upgraded (e.g., to WebSocket).
   // Data for these sessions is routed to onUpgradedData() instead of HTTP parsing.
   std::unordered_set<SessionId> _upgradedSessions;
+  /// Sessions whose Upgrade request is being processed: reads are held back in
+  /// SessionInfo::buffer (guarded by _sessionMutex, like _upgradedSessions).
+  std::unordered_set<SessionId> _upgradePending;
 };
 
 } // namespace network
